@@ -180,9 +180,14 @@ def _api_binary(ob, entry, op, s, t, prec, rnd):
     elif entry == 'rop':
         meth = {'+': '__radd__', '-': '__rsub__', '*': '__rmul__', '/': '__rtruediv__', '%': '__rmod__'}[op]
         outs = ob.run(getattr(cls, meth), [y, x])
-    elif entry == 'f':
+    elif entry in ('f', 'fx'):
         fn = {'+': mp.fadd, '-': mp.fsub, '*': mp.fmul, '/': mp.fdiv}[op]
         kw = dict(prec=prec, rounding=rnd) if prec else dict(exact=True)
+        if entry == 'fx':
+            # exact=False spelled out: must behave exactly like leaving the keyword away
+            kw = dict(kw, exact=False) if prec else dict(exact=False)
+            if not prec:
+                raise Unsupported('fx needs a precision')
         outs = ob.run(fn, [x, y], kw)
     elif entry == 'fmod':
         if rnd != 'n' or not prec or op != '%':
@@ -212,7 +217,10 @@ def _api_binary_concrete(entry, op, s, t, prec, rnd):
             r = {'+': operator.add, '-': operator.sub, '*': operator.mul, '/': operator.truediv, '%': operator.mod}[op](x, y)
         else:
             fn = {'+': mp.fadd, '-': mp.fsub, '*': mp.fmul, '/': mp.fdiv}[op]
-            r = fn(x, y, **(dict(prec=prec, rounding=rnd) if prec else dict(exact=True)))
+            kw = dict(prec=prec, rounding=rnd) if prec else dict(exact=True)
+            if entry == 'fx':
+                kw['exact'] = False
+            r = fn(x, y, **kw)
     finally:
         mp.prec = 53
     return r._mpf_
